@@ -22,6 +22,7 @@ import (
 	"sort"
 	"strings"
 	"sync"
+	"sync/atomic"
 	"time"
 
 	"github.com/XiaoMi/Gaea/backend"
@@ -103,6 +104,9 @@ type World struct {
 
 	sessions []*Sess
 	nextSess uint32
+
+	prepared   bool  // a reload is prepared but not committed
+	committing int32 // guards CommitReload
 }
 
 // New builds a fresh world.
@@ -159,6 +163,44 @@ func (w *World) Reload() error {
 	return w.vw.VerifReload(nsConfig(w.cfg), func(ns *server.Namespace) { w.patch(ns) })
 }
 
+// PrepareReload builds the next namespace generation (real ReloadNamespacePrepare, new fake
+// pools) without making it visible. CommitReload - or a Fault of kind "commit_reload", or
+// CommitOnWrite - makes it visible.
+func (w *World) PrepareReload() error {
+	w.mu.Lock()
+	w.gen++
+	w.prepared = true
+	w.mu.Unlock()
+	return w.vw.VerifReloadPrepare(nsConfig(w.cfg), func(ns *server.Namespace) { w.patch(ns) })
+}
+
+// CommitReload makes a prepared reload visible (no-op if none is pending); it reports whether
+// it did something. Safe to call from the session's goroutines.
+func (w *World) CommitReload() bool {
+	if !atomic.CompareAndSwapInt32(&w.committing, 0, 1) {
+		return false
+	}
+	defer atomic.StoreInt32(&w.committing, 0)
+	if !w.prepared {
+		return false
+	}
+	w.prepared = false
+	w.vw.VerifReloadCommit()
+	return true
+}
+
+// ReloadPending reports whether a prepared reload has not been committed yet.
+func (w *World) ReloadPending() bool { return w.prepared }
+
+// CommitOnWrite arms a one-shot hook: the prepared reload is committed when the session
+// writes the first byte of its answer to the running command (i.e. after the command was
+// executed, before Session.Run evaluates its post-command checks).
+func (s *Sess) CommitOnWrite() {
+	s.conn.mu.Lock()
+	s.conn.onWrite = func() { s.w.CommitReload() }
+	s.conn.mu.Unlock()
+}
+
 // ChangeIndex of the namespace currently served.
 func (w *World) ChangeIndex() uint32 { return w.vw.VerifNamespace(NsName).VerifChangeIndex() }
 
@@ -185,6 +227,12 @@ func (w *World) answer(p *Pool, op string) string {
 		if f.Pool == k && f.Nth == n {
 			w.armed = append(w.armed[:i:i], w.armed[i+1:]...)
 			w.fired = append(w.fired, f)
+			if f.Kind == "commit_reload" {
+				// not a fault: the prepared namespace reload commits right now, while this
+				// backend call of the running command is in flight; the call itself answers ok
+				w.CommitReload()
+				return ""
+			}
 			return f.Kind
 		}
 	}
@@ -329,6 +377,7 @@ type stepConn struct {
 	mu      sync.Mutex
 	out     []byte
 	closed  bool
+	onWrite func() // one-shot hook, see Sess.CommitOnWrite
 }
 
 func newStepConn() *stepConn {
@@ -360,6 +409,10 @@ func (c *stepConn) Write(p []byte) (int, error) {
 	defer c.mu.Unlock()
 	if c.closed {
 		return 0, io.ErrClosedPipe
+	}
+	if h := c.onWrite; h != nil {
+		c.onWrite = nil
+		h()
 	}
 	c.out = append(c.out, p...)
 	return len(p), nil
@@ -456,6 +509,9 @@ func (s *Sess) Do(cmd byte, data []byte, faults ...Fault) Resp {
 	s.w.beginStep(s.Name, faults)
 	s.conn.in <- packet(append([]byte{cmd}, data...))
 	s.wait()
+	s.conn.mu.Lock()
+	s.conn.onWrite = nil // a command without an answer leaves the hook unused
+	s.conn.mu.Unlock()
 	fired, calls := s.w.endStep()
 	r := parseResp(s.conn.takeOut())
 	r.Ended = s.Ended
